@@ -147,6 +147,10 @@ type gctx struct {
 	opt     Options
 	idx, n  int // index of the lookup being generated, total number of lookups
 	classes map[string]bool
+	// flags of the lookup generated before (see flags)
+	prevFlags     gtab.LookupFlags
+	prevMfs       uint16
+	havePrevFlags bool
 }
 
 func (c *gctx) label(s string) { c.classes[s] = true }
@@ -437,6 +441,19 @@ func (c *gctx) flags(lookupType uint16) (gtab.LookupFlags, uint16) {
 	t := c.t
 	var f gtab.LookupFlags
 	var mfs uint16
+	defer func() { c.prevFlags, c.prevMfs, c.havePrevFlags = f, mfs, true }()
+	// correlated with the previous lookup: the same flag word (anything keyed
+	// or cached by the flag word alone then sees two lookups it cannot tell
+	// apart), with another mark filtering set where one is in use
+	if c.havePrevFlags && c.prevFlags&^gtab.RightToLeft != 0 && c.chance("flagsAsPrevious", 1, 4) {
+		f, mfs = c.prevFlags&^gtab.RightToLeft, c.prevMfs
+		c.label("flag:same-word-as-previous-lookup")
+		if nSets := len(c.env.Gdef.MarkGlyphSets); f&gtab.UseMarkFilteringSet != 0 && nSets > 1 && int(mfs) < nSets && c.chance("otherMarkSet", 2, 3) {
+			mfs = uint16((int(mfs) + rapid.IntRange(1, nSets-1).Draw(t, "markSetShift")) % nSets)
+			c.label("flag:same-word-other-markset")
+		}
+		return f, mfs
+	}
 	if c.chance("flagBase", 1, 5) {
 		f |= gtab.IgnoreBaseGlyphs
 		c.label("flag:ignore-base")
